@@ -8,6 +8,7 @@ import Flowjaxv.Proofs.JaxTransforms
 import Flowjaxv.Proofs.BnafGen
 import Flowjaxv.Proofs.TriangularGen
 import Flowjaxv.Proofs.NetGen
+import Flowjaxv.Proofs.BnafInitGen
 /-!
 # C02 — the log-determinant is the log-determinant
 
@@ -1013,5 +1014,63 @@ theorem gen_coupling_logdet_audit_instance (v : Fin 2 → ℝ) (c0 : ℝ) :
   simp [Fin.prod_univ_two]
 
 end Audit
+section BnafInitGen
+open Masks MasksPf BnafGenPf BnafInitPf
+
+/-- **`bnaf_logdet` with the GENERATED constructor instead of a hypothesis on the network** (`gen_bnaf_logdet_constructed` needed
+`BnafOK` of the layers): let `N` be ANY object the generated `BlockAutoregressiveNetwork.__init__` returns — every key, `dim`,
+`cond_dim`, `depth`, `block_dim ≥ 1`, inverter, every world that allocates arrays of the declared shapes (= all weight values) — whose
+selected activation has `act' > 0` and reports `log act'`.  Then the generated `transform` of `unwrap(N)` never fails and is a map
+`F`; at every `v` its Fréchet derivative `J` exists, `det J > 0`, and the generated `transform_and_log_det` returns
+`(F v, log |det J|)`.  The condition is passed exactly when `cond_dim` was given. -/
+theorem gen_bnaf_logdet_init {K : Type} (W : Bw.World K ℝ) (IW : Bw.InitWorld K ℝ) (hW : WorldShaped W IW) (key : K) (dim : Nat)
+    (cond_dim : Option Nat) (depth bd : Nat) (hbd : 0 < bd) (activation : Option (Bw.ActArg ℝ))
+    (inverter : Option (List ℝ → Option (List ℝ) → List ℝ)) (N : Bw.NetW ℝ)
+    (h : GenBnafInit.init W IW key dim cond_dim depth bd activation inverter = .ok N)
+    (hA : BnafLd.ActOK N.activation.methods.transform_and_log_det N.activation.methods.transform)
+    (condition : Option (List ℝ)) (hc : condition.isSome = cond_dim.isSome) (v : Fin dim → ℝ) :
+    ∃ F : List ℝ → List ℝ, (∀ x, GenBnaf.transform N.unwrap x condition = some (F x)) ∧
+      ∃ J : (Fin dim → ℝ) →L[ℝ] (Fin dim → ℝ),
+        HasFDerivAt (NetLogDet.coords dim F) J v ∧ 0 < J.det ∧
+        GenBnaf.transformAndLogDet N.unwrap (List.ofFn v) condition = some (F (List.ofFn v), some (Real.log |J.det|)) := by
+  obtain ⟨_, hN⟩ := gen_init_ok W IW key dim cond_dim depth bd activation inverter N h
+  have hu := builtNet_unwrap W IW key dim cond_dim depth bd inverter N.activation
+  rw [← hN] at hu
+  rw [hu]
+  exact gen_bnaf_logdet_constructed W (fun _ => key) _ _ hA.fst hA.diff hA.ld (built_bnafOK W IW hW key dim cond_dim depth bd hbd)
+    _ condition (by rw [hc]; cases cond_dim <;> rfl) v
+
+/-- the same for the DEFAULT arguments `activation=None`: the constructor cannot raise, selects the generated `LeakyTanh(3)`, and the
+conclusion of `gen_bnaf_logdet_init` holds with no hypothesis on the activation left. -/
+theorem gen_bnaf_logdet_init_default {K : Type} (W : Bw.World K ℝ) (IW : Bw.InitWorld K ℝ) (hW : WorldShaped W IW) (key : K)
+    (dim : Nat) (cond_dim : Option Nat) (depth bd : Nat) (hbd : 0 < bd)
+    (inverter : Option (List ℝ → Option (List ℝ) → List ℝ))
+    (condition : Option (List ℝ)) (hc : condition.isSome = cond_dim.isSome) (v : Fin dim → ℝ) :
+    ∃ N, GenBnafInit.init W IW key dim cond_dim depth bd none inverter = .ok N ∧
+    ∃ F : List ℝ → List ℝ, (∀ x, GenBnaf.transform N.unwrap x condition = some (F x)) ∧
+      ∃ J : (Fin dim → ℝ) →L[ℝ] (Fin dim → ℝ),
+        HasFDerivAt (NetLogDet.coords dim F) J v ∧ 0 < J.det ∧
+        GenBnaf.transformAndLogDet N.unwrap (List.ofFn v) condition = some (F (List.ofFn v), some (Real.log |J.det|)) := by
+  have he := gen_init_eq W IW key dim cond_dim depth bd none inverter
+  simp only [resolveAct, Except.map] at he
+  refine ⟨_, he, gen_bnaf_logdet_init W IW hW key dim cond_dim depth bd hbd none inverter _ he ?_ condition hc v⟩
+  exact BnafLd.leakyTanh_actOK (m := (3.0 : ℝ)) (by norm_num)
+
+/-- non-vacuity: in the constant world of `C09.gen_bnaf_init_instance` shape (arrays of the declared shapes) the hypotheses of
+`gen_bnaf_logdet_init_default` hold for `dim = 2`, `depth = 2`, `block_dim = 3`, `cond_dim = 1`. -/
+theorem gen_bnaf_logdet_init_instance (v : Fin 2 → ℝ) :
+    let W : Bw.World Nat ℝ := ⟨fun _ i o => ⟨List.replicate o (List.replicate i 1), List.replicate o 0⟩, fun t => List.replicate (rows t) 0⟩
+    let IW : Bw.InitWorld Nat ℝ := ⟨⟨fun k n i => k * (n + 1) + i⟩, fun _ i o => ⟨List.replicate o (List.replicate i 1)⟩, fun y _ => y⟩
+    ∃ N, GenBnafInit.init W IW 0 2 (some 1) 2 3 none none = .ok N ∧
+      ∃ F : List ℝ → List ℝ, ∃ J : (Fin 2 → ℝ) →L[ℝ] (Fin 2 → ℝ), HasFDerivAt (NetLogDet.coords 2 F) J v ∧ 0 < J.det ∧
+        GenBnaf.transformAndLogDet N.unwrap (List.ofFn v) (some [5]) = some (F (List.ofFn v), some (Real.log |J.det|)) := by
+  intro W IW
+  have hW : WorldShaped W IW :=
+    ⟨fun k i o => ⟨by simp [W], by intro row hrow; simp [W] at hrow; rw [hrow.2]; simp⟩,
+     fun k i o => by simp [W], fun t => by simp [W], fun k i o => by simp [IW]⟩
+  obtain ⟨N, hN, F, _, J, h1, h2, h3⟩ := gen_bnaf_logdet_init_default W IW hW 0 2 (some 1) 2 3 (by norm_num) none (some [5]) rfl v
+  exact ⟨N, hN, F, J, h1, h2, h3⟩
+
+end BnafInitGen
 
 end C02
